@@ -54,6 +54,7 @@ struct Ctx {
     cur_src: String,
     unsafe_seen: usize,
     ke_methods: Vec<String>,
+    refused_fns: BTreeMap<String, Vec<String>>,
 }
 impl Ctx {
     fn rule(&mut self, r: &'static str) {
@@ -577,6 +578,7 @@ fn self_ty_name(t: &Type) -> String {
 }
 
 fn process_sig_and_body(cx: &mut Ctx, key: &str, sig: &mut Signature, block: &mut Block, self_subst: Option<String>) {
+    let refusals_before = cx.refusals.len();
     strip_where(cx, &mut sig.generics);
     // R7: destructuring params
     let mut lets: Vec<Stmt> = Vec::new();
@@ -598,7 +600,16 @@ fn process_sig_and_body(cx: &mut Ctx, key: &str, sig: &mut Signature, block: &mu
     }
     let mut rw = Rw { cx, in_closure: 0, loop_ord: 0, fn_key: key.to_string(), self_subst };
     rw.visit_signature_mut(sig);
+    let refusals_sig = rw.cx.refusals.len();
     rw.visit_block_mut(block);
+    // a body outside the rule list is not verified: the function is emitted without its body (external, contract ASSUMED),
+    // reported as `refused`, and every property that needs one of its clauses becomes undecided — never an alarm
+    if cx.refusals.len() > refusals_sig && refusals_sig == refusals_before {
+        let reasons: Vec<String> = cx.refusals.drain(refusals_sig..).collect();
+        cx.refused_fns.insert(key.to_string(), reasons);
+        *block = parse_quote!({ unimplemented!() });
+        lets.clear();
+    }
     for (i, l) in lets.into_iter().enumerate() { block.stmts.insert(i, l); }
     // R11: return-type wrapper and contract marker
     if let ReturnType::Type(_, t) = &mut sig.output {
@@ -971,7 +982,7 @@ fn main() {
     let src = &args[1];
     let mut cx = Ctx {
         out: String::new(), refusals: vec![], rules: BTreeMap::new(), anchors: BTreeMap::new(), dropped: vec![],
-        fns: vec![], cur_file: String::new(), cur_src: String::new(), unsafe_seen: 0, ke_methods: vec![],
+        fns: vec![], cur_file: String::new(), cur_src: String::new(), unsafe_seen: 0, ke_methods: vec![], refused_fns: BTreeMap::new(),
     };
     for (m, rel) in FILES {
         let path = format!("{}/{}", src, rel);
@@ -994,7 +1005,7 @@ fn main() {
     std::fs::write(&args[2], &cx.out).unwrap();
     let meta = serde_json::json!({
         "rules_applied": cx.rules, "anchors": cx.anchors, "dropped": cx.dropped, "fns": cx.fns,
-        "refusals": cx.refusals, "unsafe_seen": cx.unsafe_seen,
+        "refusals": cx.refusals, "unsafe_seen": cx.unsafe_seen, "refused_fns": cx.refused_fns,
     });
     std::fs::write(&args[3], serde_json::to_string_pretty(&meta).unwrap()).unwrap();
     if !cx.refusals.is_empty() {
